@@ -57,15 +57,17 @@ To5(bytes, i, acc, bits) ==
     ELSE IF i > Len(bytes) THEN (IF bits > 0 THEN <<(acc * 2^(5 - bits)) & 31>> ELSE <<>>)
     ELSE To5(bytes, i + 1, acc * 256 + bytes[i], bits + 8)
 
-(* 5 -> 8 bits, no padding: result [ok, bytes] *)
-RECURSIVE To8(_, _, _, _)
-To8(fives, i, acc, bits) ==
+(* 5 -> 8 bits, no padding: result [ok, bytes].  `strict`: at most 4 padding bits, all zero (what an encoder
+   writes); otherwise left-over bits are dropped whatever they are (a lenient decoder) *)
+RECURSIVE To8G(_, _, _, _, _)
+To8G(fives, i, acc, bits, strict) ==
     IF bits >= 8
-    THEN LET r == To8(fives, i, acc & (2^(bits - 8) - 1), bits - 8) IN
+    THEN LET r == To8G(fives, i, acc & (2^(bits - 8) - 1), bits - 8, strict) IN
          [ok |-> r.ok, bytes |-> <<shiftR(acc, bits - 8) & 255>> \o r.bytes]
     ELSE IF i > Len(fives)
-    THEN [ok |-> bits < 5 /\ acc = 0, bytes |-> <<>>]       \* at most 4 padding bits, all zero
-    ELSE To8(fives, i + 1, acc * 32 + fives[i], bits + 5)
+    THEN [ok |-> strict => (bits < 5 /\ acc = 0), bytes |-> <<>>]
+    ELSE To8G(fives, i + 1, acc * 32 + fives[i], bits + 5, strict)
+To8(fives, i, acc, bits) == To8G(fives, i, acc, bits, TRUE)
 
 (* the human-readable form of `bytes` under prefix h (a sequence of lower-case character codes) *)
 Encode(variant, h, bytes) ==
@@ -80,7 +82,7 @@ LastOne(s) == IF \E i \in 1..Len(s) : s[i] = 49
 HrpCharOK(c) == c >= 33 /\ c <= 126
 
 (* decoding under a given checksum variant: [ok, hrp (as written), bytes, upper, mixed] *)
-Decode(variant, s) ==
+DecodeG(variant, s, strict) ==
     LET hasU == \E i \in 1..Len(s) : IsUpper(s[i])
         hasL == \E i \in 1..Len(s) : IsLower(s[i])
         ls == LowerSeq(s)
@@ -94,9 +96,15 @@ Decode(variant, s) ==
             IN IF \E i \in 1..Len(h) : ~HrpCharOK(h[i]) THEN bad
                ELSE IF \E i \in 1..Len(vals) : vals[i] < 0 THEN bad
                ELSE IF Polymod(HrpExpand(lh) \o vals) # Const(variant) THEN bad
-               ELSE LET r == To8(SubSeq(vals, 1, Len(vals) - 6), 1, 0, 0) IN
+               ELSE LET r == To8G(SubSeq(vals, 1, Len(vals) - 6), 1, 0, 0, strict) IN
                     IF ~r.ok THEN bad
                     ELSE [ok |-> TRUE, hrp |-> h, bytes |-> r.bytes, upper |-> hasU, mixed |-> FALSE]
+
+Decode(variant, s) == DecodeG(variant, s, TRUE)
+(* a correctly checksummed string that is not what any encoder writes: non-zero padding bits or a superfluous
+   padding group.  Whether a codec accepts it is left open by C18 (its quantifier ranges over canonical byte
+   strings); if validation accepts it, it must return it unchanged *)
+NonCanonicalPadding(variant, s) == ~Decode(variant, s).ok /\ DecodeG(variant, s, FALSE).ok
 
 (* the string is a valid address of the codec (variant, prefix): decodes under that variant with
    exactly that prefix; written in lower case (what the encoder produces) *)
